@@ -1,12 +1,20 @@
 #!/bin/sh
-# usage: tools/confirm_seed.sh <worktree> <n>   (confirms change n of an agent)
-# 1. demo passes on the clean tree  2. demo fails with the change
-# 3. unedited suite passes with the change.  Leaves the worktree clean.
+# usage: tools/confirm_seed.sh <agent worktree> <n>
+# Confirms change n of an agent on a scratch worktree at the CURRENT head of
+# /repo (/tmp/agents/PORT): 1. demo passes on the clean tree  2. demo fails
+# with the change  3. the unedited suite passes with the change.
+# Leaves /tmp/agents/PORT/rebased.diff = the change as a diff against HEAD.
 WT=$1; N=$2
-cd $WT && git checkout -q -- vivarium || exit 2
-cd $WT/_out && PYTHONPATH=$WT timeout 300 /venv/bin/python demo$N.py > /tmp/confirm_clean.log 2>&1; C=$?
-cd $WT && git apply _out/change$N.diff || { echo "patch does not apply"; exit 2; }
-cd $WT/_out && PYTHONPATH=$WT timeout 300 /venv/bin/python demo$N.py > /tmp/confirm_changed.log 2>&1; D=$?
-cd $WT && PYTHONPATH=$WT /venv/bin/python -m pytest -q -p no:cacheprovider -n 6 --deselect vivarium/experiments/large_experiment.py 2>&1 | tail -1 > /tmp/confirm_suite.log
-cd $WT && git checkout -q -- vivarium
+PORT=/tmp/agents/PORT
+[ -d $PORT ] || git -C /repo worktree add -q --detach $PORT HEAD
+cd $PORT && git checkout -q -- . && git checkout -q --detach $(git -C /repo rev-parse HEAD) || exit 2
+mkdir -p $PORT/_out && cp $WT/_out/demo$N.py $PORT/_out/demo.py
+cd $PORT/_out && PYTHONPATH=$PORT timeout 300 /venv/bin/python demo.py > /tmp/confirm_clean.log 2>&1; C=$?
+SRC=$WT/_out/change$N.diff
+[ -f $WT/_out/change$N.ported.diff ] && SRC=$WT/_out/change$N.ported.diff
+cd $PORT && patch -p1 -s --no-backup-if-mismatch < $SRC > /tmp/confirm_patch.log 2>&1 || { echo "patch does not apply to HEAD"; git checkout -q -- .; exit 2; }
+find . -name '*.orig' -delete; git diff -- vivarium > $PORT/rebased.diff
+cd $PORT/_out && PYTHONPATH=$PORT timeout 300 /venv/bin/python demo.py > /tmp/confirm_changed.log 2>&1; D=$?
+cd $PORT && PYTHONPATH=$PORT /venv/bin/python -m pytest -q -p no:cacheprovider -n 6 --deselect vivarium/experiments/large_experiment.py 2>&1 | tail -1 > /tmp/confirm_suite.log
+cd $PORT && git checkout -q -- vivarium
 echo "demo clean exit=$C  demo changed exit=$D  suite: $(cat /tmp/confirm_suite.log)"
